@@ -221,6 +221,40 @@ class G:
 
 
 @st.composite
+def tailcall_cases(draw, nenv=2):
+    """small chains whose functions end in a statement call (the shape the tail-call rewrite acts on):
+    callee and caller each called once or several times, with or without arguments; every function
+    satisfies the F-D11 carve-out (no other user call, no return statement, callee without result)"""
+    n = draw(st.integers(2, 4))
+    L = [HDR.rstrip("\n")]
+    fs = []
+    for i in range(n):
+        npar = draw(st.integers(0, 2))
+        ps = [f"p{i}{j}" for j in range(npar)]
+        L.append(f"def t{i}({', '.join(ps)}):")
+        for k in range(draw(st.integers(1, 2))):
+            src = draw(st.sampled_from(ps + READS + ["1", "7"]))
+            L.append(f"    {OUTS[(i + k) % len(OUTS)]} = {src} + {10 * i + k}")
+        if fs and draw(st.integers(0, 3)) > 0:
+            g = fs[draw(st.integers(0, len(fs) - 1))]
+            args = ", ".join(draw(st.sampled_from([f"({p} + 1)" for p in ps] + ["2", "d0.Setting", "(d1.On * 2)"])) for _ in range(g["npar"]))
+            L.append(f"    {g['name']}({args})")
+            g["calls"] += 1
+        fs.append({"name": f"t{i}", "npar": npar, "calls": 0})
+    L.append("while True:")
+    for f in fs:
+        want = draw(st.integers(0, 2))
+        if f is fs[-1]:
+            want = max(want, 1)
+        for _ in range(want):
+            args = ", ".join(draw(st.sampled_from(["1", "3", "d2.Setting"])) for _ in range(f["npar"]))
+            L.append(f"    {f['name']}({args})")
+    L.append("    yield_()")
+    return {"src": {"": "\n".join(L) + "\n"}, "env_seeds": [draw(st.integers(0, 2**31 - 1)) for _ in range(nenv)],
+            "pool": pool_for([]), "features": ["tail-call-chain"]}
+
+
+@st.composite
 def callgraph_cases(draw, nenv=2, **kw):
     g = G(draw, **kw)
     src = g.program()
